@@ -577,8 +577,11 @@ impl Primitive {
     pub fn try_into_numeric_index(&self) -> Result<usize> {
         Ok(match self {
             Primitive::Byte(byte) => *byte as usize,
-            Primitive::BigInt(bigint) => *bigint as usize,
-            Primitive::Int(int) => *int as usize,
+            Primitive::BigInt(bigint) => usize::try_from(*bigint)
+                .with_context(|| format!("cannot index with {bigint}"))?,
+            Primitive::Int(int) => {
+                usize::try_from(*int).with_context(|| format!("cannot index with {int}"))?
+            }
             other => bail!("cannot index with {other}"),
         })
     }
